@@ -22,8 +22,11 @@ def main():
         i = args.index("--tier"); tier = args[i + 1]; del args[i:i + 2]
     all_checks = "--all-checks" in args
     if all_checks: args.remove("--all-checks")
-    ids = args or sorted(d for d in os.listdir(os.path.join(ROOT, "seeded")) if os.path.isdir(os.path.join(ROOT, "seeded", d)))
     claimed = [c["property_id"] for c in json.load(open(os.path.join(ROOT, "MANIFEST.json")))["checks"]]
+    if "--unclaimed" in args:   # also run checks that exist but are not (yet) claimed in MANIFEST.json
+        args.remove("--unclaimed")
+        claimed = sorted(f[:-3].upper() for f in os.listdir(os.path.join(ROOT, "vlib", "checks")) if f.startswith("c") and f.endswith(".py"))
+    ids = args or sorted(d for d in os.listdir(os.path.join(ROOT, "seeded")) if os.path.isdir(os.path.join(ROOT, "seeded", d)))
     summary = []
     for sid in ids:
         d = os.path.join(ROOT, "seeded", sid)
